@@ -80,6 +80,11 @@ Section Cmp.
 
   Definition best (cur : A) (l : list A) : A := fold_left pick l cur.
 
+  Lemma best_cons : forall cur x l, best cur (x :: l) = best (pick cur x) l.
+  Proof. reflexivity. Qed.
+  Lemma best_nil : forall cur, best cur [] = cur.
+  Proof. reflexivity. Qed.
+
   Lemma pick_ge_l : forall cur x, le cur (pick cur x).
   Proof.
     intros cur x. unfold pick, le. destruct (cmp cur x) eqn:E.
@@ -98,25 +103,26 @@ Section Cmp.
 
   Lemma best_in : forall l cur, best cur l = cur \/ In (best cur l) l.
   Proof.
-    induction l as [|x l IH]; intros cur; cbn.
+    induction l as [|x l IH]; intros cur; [rewrite best_nil | rewrite best_cons].
     - left; reflexivity.
     - destruct (IH (pick cur x)) as [H|H].
-      + rewrite H. unfold pick. destruct (cmp cur x); auto.
+      + rewrite H. unfold pick. destruct (cmp cur x); cbn; auto.
       + right; right; exact H.
   Qed.
 
   Lemma best_ge_cur : forall l cur, le cur (best cur l).
   Proof.
-    induction l as [|x l IH]; intros cur; cbn.
+    induction l as [|x l IH]; intros cur; [rewrite best_nil | rewrite best_cons].
     - apply le_refl.
     - eapply le_trans; [apply pick_ge_l | apply IH].
   Qed.
 
   Lemma best_max : forall l cur x, x = cur \/ In x l -> le x (best cur l).
   Proof.
-    induction l as [|y l IH]; intros cur x [H|H]; cbn in *.
+    induction l as [|y l IH]; intros cur x [H|H];
+      [rewrite best_nil | rewrite best_nil | rewrite best_cons | rewrite best_cons].
     - subst. apply le_refl.
-    - contradiction.
+    - destruct H.
     - subst. eapply le_trans; [apply pick_ge_l | apply best_ge_cur].
     - destruct H as [H|H].
       + subst. eapply le_trans; [apply pick_ge_r | apply best_ge_cur].
@@ -179,8 +185,7 @@ Section Cmp.
         by (rewrite <- app_assoc; reflexivity).
       unfold pick. destruct (cmp cur x) eqn:E; rewrite Happ, <- Hlen.
       + apply IH; [rewrite app_nth1 by exact Hi; exact Hn | rewrite Hlen; lia].
-      + rewrite Hlen at 1 3. rewrite <- Hlen.
-        apply IH; [| rewrite Hlen; lia].
+      + apply IH; [| rewrite Hlen; lia].
         rewrite app_nth2 by lia. rewrite Nat.sub_diag. reflexivity.
       + apply IH; [rewrite app_nth1 by exact Hi; exact Hn | rewrite Hlen; lia].
   Qed.
@@ -191,6 +196,27 @@ Arguments strict {A} cmp.
 Arguments le {A} cmp a b.
 Arguments best {A} cmp cur l.
 Arguments best_idx {A} cmp cur i j l.
+
+(** ---------- pulling an order back along a key function ---------- *)
+Section Pullback.
+  Context {A K : Type}.
+  Variable f : A -> K.
+  Variable c : K -> K -> comparison.
+
+  Definition on_key (a b : A) : comparison := c (f a) (f b).
+
+  Lemma on_key_tpo : tpo c -> tpo on_key.
+  Proof.
+    intros TC. unfold on_key. split.
+    - intros a. apply (tpo_refl _ TC).
+    - intros a b. apply (tpo_sym _ TC).
+    - intros a b d. apply (tpo_lt_trans _ TC).
+    - intros a b d. apply (tpo_eq_l _ TC).
+  Qed.
+
+  Lemma on_key_eq : strict c -> forall a b, on_key a b = Eq -> f a = f b.
+  Proof. intros SC a b H. apply SC. exact H. Qed.
+End Pullback.
 
 (** ---------- lexicographic product ---------- *)
 Section Prod.
@@ -250,28 +276,54 @@ Section ListLex.
         end
     end.
 
+  Lemma lex_list_refl : tpo c -> forall l, lex_list l l = Eq.
+  Proof.
+    intros TC. induction l as [|x l IH]; cbn; [reflexivity|].
+    rewrite (tpo_refl _ TC). exact IH.
+  Qed.
+
+  Lemma lex_list_sym : tpo c -> forall l l', lex_list l' l = CompOpp (lex_list l l').
+  Proof.
+    intros TC. induction l as [|x l IH]; intros [|y l']; cbn; try reflexivity.
+    rewrite (tpo_sym _ TC x y). destruct (c x y); cbn; try reflexivity. apply IH.
+  Qed.
+
+  Lemma lex_list_lt_trans : tpo c -> forall l1 l2 l3,
+    lex_list l1 l2 = Lt -> lex_list l2 l3 = Lt -> lex_list l1 l3 = Lt.
+  Proof.
+    intros TC. induction l1 as [|x l1 IH]; intros [|y l2] [|z l3]; cbn;
+      try discriminate; try reflexivity.
+    destruct (c x y) eqn:E12; try discriminate.
+    - rewrite (tpo_eq_l _ TC x y z E12).
+      destruct (c y z) eqn:E23; try discriminate; try reflexivity. apply IH.
+    - intros _. destruct (c y z) eqn:E23; try discriminate.
+      + rewrite <- (tpo_eq_r _ TC y z x E23), E12. reflexivity.
+      + rewrite (tpo_lt_trans _ TC x y z E12 E23). reflexivity.
+  Qed.
+
+  Lemma lex_list_eq_l : tpo c -> forall l1 l2 l3,
+    lex_list l1 l2 = Eq -> lex_list l1 l3 = lex_list l2 l3.
+  Proof.
+    intros TC. induction l1 as [|x l1 IH]; intros [|y l2] [|z l3]; cbn;
+      try discriminate; try reflexivity.
+    destruct (c x y) eqn:E12; try discriminate. intros Hr.
+    rewrite (tpo_eq_l _ TC x y z E12). destruct (c y z); try reflexivity.
+    apply IH; exact Hr.
+  Qed.
+
   Lemma lex_list_tpo : tpo c -> tpo lex_list.
   Proof.
     intros TC. split.
-    - induction a as [|x a IH]; cbn; [reflexivity|]. rewrite (tpo_refl _ TC). exact IH.
-    - induction a as [|x a IH]; intros [|y b]; cbn; try reflexivity.
-      rewrite (tpo_sym _ TC x y). destruct (c x y); cbn; try reflexivity. apply IH.
-    - induction a as [|x a IH]; intros [|y b] [|z d]; cbn; try discriminate; try reflexivity.
-      destruct (c x y) eqn:E12; try discriminate.
-      + rewrite (tpo_eq_l _ TC x y z E12).
-        destruct (c y z) eqn:E23; try discriminate; try reflexivity. apply IH.
-      + intros _. destruct (c y z) eqn:E23; try discriminate.
-        * rewrite <- (tpo_eq_r _ TC y z x E23), E12. reflexivity.
-        * rewrite (tpo_lt_trans _ TC x y z E12 E23). reflexivity.
-    - induction a as [|x a IH]; intros [|y b] [|z d]; cbn; try discriminate; try reflexivity.
-      + destruct (c x y) eqn:E12; try discriminate. intros Hr.
-        rewrite (tpo_eq_l _ TC x y z E12). destruct (c y z); try reflexivity.
-        apply IH; exact Hr.
+    - apply lex_list_refl; exact TC.
+    - apply lex_list_sym; exact TC.
+    - apply lex_list_lt_trans; exact TC.
+    - apply lex_list_eq_l; exact TC.
   Qed.
 
   Lemma lex_list_strict : strict c -> strict lex_list.
   Proof.
-    intros SC. induction a as [|x a IH]; intros [|y b]; cbn; try discriminate; try reflexivity.
+    intros SC. intros l. induction l as [|x l IH]; intros [|y l']; cbn;
+      try discriminate; try reflexivity.
     destruct (c x y) eqn:E; try discriminate.
     intros Hr. apply SC in E. apply IH in Hr. subst. reflexivity.
   Qed.
@@ -283,7 +335,7 @@ Proof.
   split.
   - apply Z.compare_refl.
   - intros a b. apply Z.compare_antisym.
-  - intros a b c0 H1 H2. apply Z.compare_lt_iff in H1, H2. apply Z.compare_lt_iff. lia.
+  - intros a b c0 H1 H2. rewrite Z.compare_lt_iff in *. lia.
   - intros a b c0 H. apply Z.compare_eq in H. subst. reflexivity.
 Qed.
 
